@@ -264,7 +264,11 @@ impl IcmpForwarder {
 
     async fn listen_socket(sock: &RawPacketStream) -> io::Result<(IpAddr, Bytes)> {
         loop {
+            #[cfg(trusttunnel_verif)]
+            let (peer, packet) = sock.inner.recv_from().await?;
+            #[cfg(not(trusttunnel_verif))]
             let mut guard = sock.inner.readable().await?;
+            #[cfg(not(trusttunnel_verif))]
             let (peer, packet) = match guard.try_io(|x| net_utils::recv_from(x.as_raw_fd(), None)) {
                 Ok(x) => x?,
                 Err(_would_block) => continue,
@@ -385,9 +389,25 @@ impl datagram_pipe::Sink for IcmpSink {
 }
 
 struct RawPacketStream {
+    #[cfg(not(trusttunnel_verif))]
     inner: AsyncFd<libc::c_int>,
+    #[cfg(trusttunnel_verif)]
+    inner: crate::verif::os::RawIcmpSocket,
 }
 
+#[cfg(trusttunnel_verif)]
+impl RawPacketStream {
+    pub fn new(protocol: libc::c_int, if_name: &str) -> io::Result<Self> {
+        crate::verif::os::RawIcmpSocket::new(protocol == libc::IPPROTO_ICMP, if_name)
+            .map(|inner| Self { inner })
+    }
+
+    pub async fn send_to(&self, dst: IpAddr, ttl: u8, packet: &Bytes) -> io::Result<()> {
+        self.inner.send_to(dst, ttl, packet).await
+    }
+}
+
+#[cfg(not(trusttunnel_verif))]
 impl RawPacketStream {
     pub fn new(protocol: libc::c_int, if_name: &str) -> io::Result<Self> {
         let family = match protocol {
@@ -447,6 +467,7 @@ impl RawPacketStream {
     }
 }
 
+#[cfg(not(trusttunnel_verif))]
 impl Drop for RawPacketStream {
     fn drop(&mut self) {
         let fd = self.inner.get_ref();
